@@ -473,7 +473,7 @@ class NumericalCategoricalDissimilarity(OrdinalCategoricalDissimilarity):
     """
     def __init__(self, labels: Iterable[str], delta_empty: float = 1.0):
         try:
-            labels_num = np.array(list(labels), dtype=np.float32)
+            labels_num = np.array(list(labels), dtype=np.float64)  # (float32 cannot tell large numerical categories apart)
         except ValueError:
             raise ValueError("Cannot use ordinal dissimilarity on non-numeric categories.")
 
